@@ -300,6 +300,8 @@ class Contrast:
                   Baseline value for the test statistic
         """
         self.baseline = baseline
+        # a cached p-value belongs to the previous baseline
+        self.p_value_ = None
 
         # Case: one-dimensional contrast ==> t or t**2
         if self.dim == 1:
